@@ -213,15 +213,21 @@ ProbeIdx(size, nzc) == {i \in {0, 1, 2, nzc - 2, nzc - 1, nzc, nzc + 1, size - 2
 RECURSIVE SortedSeq(_)
 SortedSeq(S) == IF S = {} THEN <<>> ELSE LET m == CHOOSE x \in S : \A y \in S : x <= y
                                          IN <<m>> \o SortedSeq(S \ {m})
-RootRec(size) ==
+\* w = 1: seeded root; for the sizes emitted completely also the extreme roots 1 (w = 2) and Nzc - 1 (w = 3).
+\* A complete record carries two lags at which the autocorrelation law is decided on the exponents of THIS
+\* length (LargeLengthLags) and the laws the replay must evaluate numerically on the real base sequence.
+RootRec(size, w) ==
   LET nzc  == TablePick(size)
-      u    == RootU(size, nzc)
-      idx  == IF size \in RootFull THEN [i \in 1..size |-> i - 1] ELSE SortedSeq(ProbeIdx(size, nzc))
-  IN [kind |-> "root", size |-> size, u |-> u, nzc |-> nzc, idx |-> idx,
+      u    == IF w = 1 THEN RootU(size, nzc) ELSE IF w = 2 THEN 1 ELSE nzc - 1
+      full == size \in RootFull
+      idx  == IF full THEN [i \in 1..size |-> i - 1] ELSE SortedSeq(ProbeIdx(size, nzc))
+  IN [kind |-> "root", size |-> size, u |-> u, nzc |-> nzc, idx |-> idx, full |-> full,
+      lags |-> IF full THEN <<1, 1 + Pick(size + w, 6, nzc - 1)>> ELSE <<>>,
+      req |-> IF full THEN {"ConstantAmplitude", "ZeroAutocorrelation", "FlatSpectrum"} ELSE {},
       e |-> [i \in 1..Len(idx) |-> IF ExtSrc(nzc, idx[i]) < 0 THEN -1
                                     ELSE ZcExp(nzc, u, ExtSrc(nzc, idx[i]))]]
 RootCase == /\ "root" \in Kinds /\ Fresh
-            /\ \E size \in RootSizes : c' = RootRec(size)
+            /\ \E size \in RootSizes : \E w \in 1..3 : (w = 1 \/ size \in RootFull) /\ c' = RootRec(size, w)
 
 (* ---- SrsUeSequence / DmrsUeSequence: root sequence times the phase ramp, cover code,
         optional normalisation (amplitude 1/sqrt(size), reported as norm2 = size) --------- *)
@@ -256,17 +262,21 @@ ShiftCase == /\ "shift" \in Kinds /\ Fresh
                   a < b /\ c' = ShiftRec(D, L, a, b)
 
 (* ---- compute_ls_estimation(Y, S) = Y S^H (S S^H)^-1, with the exact inverse adj / det ---- *)
-LsDims(i) == [nr |-> 1 + Pick(3000 + i, 1, 3), nt |-> 1 + Pick(3000 + i, 2, 3),
-              extra |-> Pick(3000 + i, 3, 3)]                      \* np = nt + extra
+LsDims(i) == [nr |-> 1 + Pick(3000 + i, 1, 4), nt |-> 1 + Pick(3000 + i, 2, 3),
+              extra |-> Pick(3000 + i, 3, 3)]                      \* np = nt + extra; 1..4 receive antennas
+\* every fourth draw has REAL pilots (+-1 / 0, e.g. Hadamard-like): the replay hands them over as float and as integer arrays too
+GRndP(i, k, j) == IF i % 4 = 0 THEN <<-1 + Pick(k, j, 3), 0>> ELSE GRnd(k, j, -1, 1)
 LsS(i, r) == LET d == LsDims(i) IN
-  TLCEval([a \in 1..d.nt |-> TLCEval([p \in 1..(d.nt + d.extra) |-> GRnd(3000 + i + 500 * r, 10 + 2 * (a * 6 + p), -1, 1)])])
+  TLCEval([a \in 1..d.nt |-> TLCEval([p \in 1..(d.nt + d.extra) |-> GRndP(i, 3000 + i + 500 * r, 10 + 2 * (a * 6 + p))])])
 LsH(i, r) == LET d == LsDims(i) IN
   TLCEval([a \in 1..d.nr |-> TLCEval([b \in 1..d.nt |-> GRnd(3300 + 7 * i + r, 10 + 2 * (a * 3 + b), -2, 2)])])
 Gram(S) == IF Dev.LsGramNotConjugated THEN MatMul(S, Transp(S)) ELSE MatMul(S, Herm(S))
 LsS2(i, form) == IF form = "3d-each" THEN LsS(i, 1) ELSE LsS(i, 0)   \* pilots of the second realisation
+LsS3(i, form) == IF form = "3d-each" THEN LsS(i, 2) ELSE LsS(i, 0)   \* ... and of the third
 \* full row rank of the pilots (else: not a case of the property)
 LsOk(i, form) == /\ Det(MatMul(LsS(i, 0), Herm(LsS(i, 0)))) # GZero
                  /\ Det(MatMul(LsS2(i, form), Herm(LsS2(i, form)))) # GZero
+                 /\ Det(MatMul(LsS3(i, form), Herm(LsS3(i, form)))) # GZero
                  /\ Det(Gram(LsS(i, 0))) # GZero
 \* The least-squares law is scale covariant: H_hat(H (c S), c S) = H for every c # 0.  Exact factors for
 \* TLC (Gaussian integers), and the rational factors <<p, q>> the replay additionally scales the pilots with
@@ -282,8 +292,10 @@ LsRec(i, form) ==
       Y  == MatMul(H, S)
       S2 == LsS2(i, form)
       H2 == LsH(i, 1)
+      S3 == LsS3(i, form)
+      H3 == LsH(i, 2)
   IN [kind |-> "ls", id |-> i, form |-> form, s |-> S, h |-> H, y |-> Y,
-      s2 |-> S2, h2 |-> H2, y2 |-> MatMul(H2, S2),
+      s2 |-> S2, h2 |-> H2, y2 |-> MatMul(H2, S2), s3 |-> S3, h3 |-> H3, y3 |-> MatMul(H3, S3),
       num |-> MatMul(MatMul(Y, Herm(S)), Adj(G)), den |-> Det(G), scales |-> ObsScales]
 LsCase == /\ "ls" \in Kinds /\ Fresh
           /\ \E i \in 1..NLs : \E form \in {"2d", "3d-shared", "3d-each"} :
@@ -299,28 +311,42 @@ Dot2(a, b) == a[1] * b[1] + a[2] * b[2]
 \* belongs to a user with a given shift, cover code, normalisation, and to a root with a given index):
 \* [has |-> FALSE] or [has |-> TRUE, ct, cover, normalize, asarray, mult, u, kw (0 = seeded)]
 NoOv == [has |-> FALSE]
+ScenStream(f, L, nrx, v, ov) == 5000 + FamIdx(f) * 3001 + L * 17 + nrx * 5 + v * 131 + (IF ov.has THEN 7 * ov.ct ELSE 0)
+ScenKw(f, L, nrx, v, ov) == IF ov.has /\ ov.kw > 0 THEN ov.kw ELSE 1 + Pick(ScenStream(f, L, nrx, v, ov), 4, 2)
+\* the number of kept taps of a scenario (num_taps_to_keep), cheap to evaluate on its own
+ScenKeep(f, L, nrx, v, ov) ==
+  LET kw == ScenKw(f, L, nrx, v, ov)  W == L \div DOf(f)
+  IN IF v % 2 = 1 \/ v % 4 = 2 THEN kw * W - 1 ELSE Pick(ScenStream(f, L, nrx, v, ov), 5, kw * W)
 ScenarioX(f, L, nrx, v, ov) ==
-  LET k     == 5000 + FamIdx(f) * 3001 + L * 17 + nrx * 5 + v * 131 + (IF ov.has THEN 7 * ov.ct ELSE 0)
+  LET k     == ScenStream(f, L, nrx, v, ov)
       D     == DOf(f)
       W     == L \div D
+      \* a length that is not a multiple of the number of shifts: the shifts are not orthogonal, the property then
+      \* speaks about the single user (and, with cover codes, a same-shift user with an orthogonal code)
+      solo  == L % D # 0
       tight == v % 2 = 1
-      kw    == IF ov.has /\ ov.kw > 0 THEN ov.kw ELSE 1 + Pick(k, 4, 2)   \* the target may use kw shift windows
-      K     == IF tight THEN kw * W - 1 ELSE Pick(k, 5, kw * W)
+      \* v = 2 mod 4: DENSE channels - the target has a tap at EVERY kept delay 0..K and the user in the window just
+      \* above fills its whole window; v = 0 mod 4: seeded, 1 .. N/8 taps
+      dense == v % 4 = 2
+      kw    == ScenKw(f, L, nrx, v, ov)                  \* the target may use kw shift windows
+      K     == ScenKeep(f, L, nrx, v, ov)
       ct    == IF ov.has THEN ov.ct ELSE Pick(k, 3, D)
-      nt    == 1 + Pick(k, 6, Min(3, K + 1))
-      d0    == IF tight THEN K ELSE Pick(k, 7, K + 1)
-      st    == 1 + Pick(k, 8, Max(1, (K + 1) \div nt))
-      tap(t, kk, base) == [d |-> base, v |-> TLCEval([a \in 1..nrx |-> GNonZero(GRnd(kk, 20 + 8 * a + 2 * t, -3, 3))])]
+      nt    == IF dense THEN K + 1
+               ELSE IF tight THEN 1 + Pick(k, 6, Min(3, K + 1))
+               ELSE 1 + Pick(k, 6, Min(K + 1, Max(1, L \div 8)))
+      d0    == IF dense THEN 0 ELSE IF tight THEN K ELSE Pick(k, 7, K + 1)
+      st    == IF dense THEN 1 ELSE 1 + Pick(k, 8, Max(1, (K + 1) \div nt))
+      tap(t, kk, base) == [d |-> base, v |-> TLCEval([a \in 1..nrx |-> GNonZero(GRnd(kk + 3 * t, 20 + 8 * a, -3, 3))])]
       ttaps == TLCEval([t \in 1..nt |-> tap(t, k, (d0 + (t - 1) * st) % (K + 1))])
       tcov  == IF f # "occ" THEN <<>> ELSE IF ov.has THEN ov.cover ELSE Cov2[1 + Pick(k, 9, 4)]
       \* boundary scenarios: user 1 sits in the window just above the kept taps with a tap at its delay 0
       \* (position K + 1), user 2 in the last window with a tap at its last delay (position L - 1)
-      ni    == IF tight THEN 2 + Pick(k, 10, 2) ELSE Pick(k, 10, 4)
-      off   == IF tight THEN 0 ELSE Pick(k, 11, D - kw)
+      ni    == IF solo THEN 0 ELSE IF tight THEN 2 + Pick(k, 10, 2) ELSE IF dense THEN 1 + Pick(k, 10, 3) ELSE Pick(k, 10, 4)
+      off   == IF tight \/ dense THEN 0 ELSE Pick(k, 11, D - kw)
       intf(q) == LET rel == IF tight /\ q = 2 THEN D - 1
                             ELSE kw + ((off + q - 1) % (D - kw))    \* window index of this user
-                     nq  == 1 + Pick(k + q, 12, Min(2, W))
-                     q0  == IF tight /\ q = 1 THEN 0 ELSE IF tight /\ q = 2 THEN W - 1 ELSE Pick(k + q, 13, W)
+                     nq  == IF dense /\ q = 1 THEN W ELSE 1 + Pick(k + q, 12, Min(2, W))
+                     q0  == IF (tight \/ dense) /\ q = 1 THEN 0 ELSE IF tight /\ q = 2 THEN W - 1 ELSE Pick(k + q, 13, W)
                  IN [cs |-> (ct - rel) % D, rel |-> rel,
                      cover |-> IF f = "occ" THEN Cov2[1 + Pick(k + q, 14, 4)] ELSE <<>>,
                      taps |-> TLCEval([t \in 1..nq |-> tap(t, k + 40 * q, (q0 + (t - 1)) % W)])]
@@ -368,7 +394,7 @@ EstRec(f, L, nrx, v) == LET sc == Scenario(f, L, nrx, v)
                        IN [kind |-> "est", sc |-> sc, est |-> EstTaps(sc), scales |-> ObsScales]
 EstCase == /\ "est" \in Kinds /\ Fresh
            /\ \E f \in EstFams : \E L \in EstLs : \E nrx \in EstNrx : \E v \in EstVars :
-                L % DOf(f) = 0 /\ c' = EstRec(f, L, nrx, v)
+                (L > 24 \/ L % DOf(f) = 0) /\ c' = EstRec(f, L, nrx, v)
 
 Next == PrimeCase \/ ZcCase \/ ExtCase \/ RootCase \/ UeCase \/ ShiftCase \/ LsCase \/ EstCase
 Spec == Init /\ [][Next]_vars
@@ -393,6 +419,12 @@ ZeroAutocorrelation == Is("zc") =>
       /\ (tau = 0) => \A i \in 1..c.n : Diffs(c.e, tau)[i] = 0
       /\ IsPrime(c.n) => (ZeroSumPrime(c.n, Diffs(c.e, tau)) <=> AutoZero(c.e, c.u, tau))
       /\ (IsPrime(c.n) /\ tau # 0) => AutoZero(c.e, c.u, tau)
+
+\* the same law at the lengths that are really used (primes to 1193): decided on the exponents of the base part of
+\* every completely emitted root sequence at lag 1 and one seeded lag (all lags would be O(N^2) per case)
+LargeLengthLags == (Is("root") /\ c.full) =>
+   LET base == SubSeq(c.e, 1, c.nzc)
+   IN \A i \in 1..Len(c.lags) : CosetLaw(base, c.u, c.lags[i]) /\ AutoZero(base, c.u, c.lags[i])
 
 \* |DFT|^2 = N on every bin
 FlatSpectrum == (Is("zc") /\ IsPrime(c.n) /\ c.n <= SpecMax) =>
@@ -432,7 +464,7 @@ LsScaleCovariant == Is("ls") =>
 \* fits in its own shift window and either lies outside the kept taps or is cancelled by its cover
 ScenarioOk == Is("est") =>
    LET sc == c.sc IN
-   /\ sc.size % sc.den = 0
+   /\ sc.size % sc.den = 0 \/ \A q \in 1..Len(sc.others) : sc.others[q].cs = sc.ct
    /\ \A t \in 1..Len(sc.taps) : sc.taps[t].d \in 0..sc.keep
    /\ \A t1, t2 \in 1..Len(sc.taps) : t1 # t2 => sc.taps[t1].d # sc.taps[t2].d
    /\ \A q \in 1..Len(sc.others) : \A t \in 1..Len(sc.others[q].taps) :
